@@ -237,12 +237,12 @@ def run(ctx):
                 ctx.check(not inside_eval, "K2.table-consulted-elsewhere", "%s|%s" % (t.const_key.split("::", 1)[1], u.split("::", 1)[1]),
                           "the operator table %s is also consulted from %s during parsing/evaluation: names can be recognised by something other than the exact-match dispatch" % (t.const_key.split("::", 1)[1], u.split("::", 1)[1]),
                           where=ub.where() if ub else "", fn=u, nontrivial=True)
-        # ---------------- K3
-        k3(ctx, facts, tables, disp, cfg)
-
-        # ---------------- K5: an operator-keyed object never silently falls back to a literal
+        # ---------------- K5: an operator-keyed object never silently falls back to a literal (read before K3: it does not
+        # depend on the shape of the parser chain, and a chain K3 cannot read must not hide a swallowed error)
         from .c03 import k5_error_discipline
         k5_error_discipline(ctx, facts, disp, cfg)
+        # ---------------- K3
+        k3(ctx, facts, tables, disp, cfg)
 
         # ---------------- K4
         from .roles import Roles
@@ -327,7 +327,7 @@ def k3(ctx, facts, tables, disp, cfg):
     for b in facts.fns():
         if b.kind != "fn":
             continue
-        ps = {callee_of(t)["key"] for _, t in b.calls() if callee_of(t) and callee_of(t)["local"] and callee_of(t)["path"].endswith("::from_value") and " as Parser<" in callee_of(t)["path"]}
+        ps = {callee_of(t)["key"] for ub_ in [b] + [x_ for x_ in facts.fns() if x_.key.startswith(b.key + "::{closure#")] for _, t in ub_.calls() if callee_of(t) and callee_of(t)["local"] and callee_of(t)["path"].endswith("::from_value") and " as Parser<" in callee_of(t)["path"]}
         if len(ps) >= 3:
             ctx.need(vp is None, "two functions look like the value parser")
             vp = (b, ps)
@@ -391,17 +391,25 @@ def k3(ctx, facts, tables, disp, cfg):
             c = callee_of(t)
             if c and c.get("key") in parsers:
                 sites.setdefault(c["key"], []).append(bi)
+        unread_order = None
         if set(sites) != parsers or any(len(v) != 1 for v in sites.values()):
-            raise Inconclusive("precedence of the parser alternatives cannot be read: %s" % show_expr(res)[:120])
-        ks = sorted(sites, key=lambda k: len(b.dominators(sites[k][0])))
-        for i in range(len(ks) - 1):
-            if not b.dominates(sites[ks[i]][0], sites[ks[i + 1]][0]):
-                raise Inconclusive("the parser alternatives are not tried in a fixed order")
-        order = ks
-    ctx.check(order[-1] == raw_key and order.count(raw_key) == 1, "K3.raw-last", "literal fallback has the lowest precedence (%s)" % cfg,
+            unread_order = "the parser alternatives are not tried in the value parser's own body (closures / helpers): %s" % show_expr(res)[:100]
+        else:
+            ks = sorted(sites, key=lambda k: len(b.dominators(sites[k][0])))
+            for i in range(len(ks) - 1):
+                if not b.dominates(sites[ks[i]][0], sites[ks[i + 1]][0]):
+                    unread_order = "the parser alternatives are not tried in a fixed order"
+            order = ks
+        if unread_order:
+            for cl_, k_ in (("K3.raw-last", "literal fallback has the lowest precedence (%s)" % cfg), ("K3.all-tried", "every table parser is an alternative (%s)" % cfg)):
+                ctx.unread(cl_, k_, unread_order, where=b.where(), fn=b.key)
+            order = None
+    if order is not None:
+      ctx.check(order[-1] == raw_key and order.count(raw_key) == 1, "K3.raw-last", "literal fallback has the lowest precedence (%s)" % cfg,
               "parser precedence is %s — the literal wrapper %s is not the last alternative, so operator objects after it would be returned as literals" % (order, raw_key),
               where=b.where(), nontrivial=True, fn=b.key, sample={"precedence": order})
-    ctx.check(set(order) == parsers, "K3.all-tried", "every table parser is an alternative (%s)" % cfg, "alternatives in the chain: %s" % order, where=b.where(), fn=b.key)
+    if order is not None:
+      ctx.check(set(order) == parsers, "K3.all-tried", "every table parser is an alternative (%s)" % cfg, "alternatives in the chain: %s" % order, where=b.where(), fn=b.key)
 
     # raw evaluate: sibling in the same impl; no calls, returns Ok(Evaluated::Raw(self.0))
     impl = raw_key.rsplit("::", 1)[0]
